@@ -172,3 +172,99 @@ def has_quorum(ctx):
     ctx.prove(Iff(I.truth_expr(v), to_real(cc2) > to_real(nn) / 2), 'C18:O18.2.hasQuorum-independent-of-observers')
     for n, b in field_unchanged(old, so, ['otherNodes', 'connectedNodes', 'raftState']):
         ctx.prove(b, 'C20:O20.3.pure.%s' % n)
+
+
+@unit(name='tick.election', relpath=MOD, qual=['SyncObj._onTick', 'SyncObj.__onBecomeLeader', 'SyncObj.__onLeaderChanged'],
+      props=['C03', 'C18', 'C02', 'C07'],
+      kind='region of _onTick: the election block `if self.__raftState in (FOLLOWER, CANDIDATE) and self.__selfNode is not None:`',
+      doc='A4: candidacy increments the term once, votes for itself, asks every voter with its true last index/term; '
+          'leader at once only with a majority of one; read-only nodes never start elections',
+      assumptions=['A-CLOCK', 'universe'], trusted=['T-TRANSPORT'],
+      canaries=[
+          ('drop-selfnode-guard', lambda mod: mutate_function(mod, 'SyncObj._onTick', _mut_election_drop_selfnode), ['O18.1.readonly-never-candidate']),
+          ('no-self-vote-reset', lambda mod: mutate_function(mod, 'SyncObj._onTick', _mut_votes_not_reset), ['A4.candidate-state']),
+      ])
+def tick_election(ctx):
+    so = SO(ctx, UNIVERSE())
+    so.assume_inv()
+    old = so.snapshot()
+    blk = _election_block(so.mod)
+    I = make_interp(ctx, so, registry=SUMMARIES, inline={'SyncObj.__onBecomeLeader', 'SyncObj.__onLeaderChanged'})
+    kind, v, fr = run_region(I, so, 'SyncObj._onTick', [blk])
+    ctx.prove(kind == 'ok', 'C03:election.no-exception', info=getattr(v, 'typ', None))
+    if kind != 'ok':
+        return
+    t0, t1 = old.get('raftCurrentTerm'), so.get('raftCurrentTerm')
+    r0, r1 = old.get('raftState'), so.get('raftState')
+    vf0, vf1 = old.get('votedForNodeId'), so.get('votedForNodeId')
+    readonly = so.get('selfNode').isnone
+    olog = old.get('raftLog')
+    nv = so.nvoters(old)
+    out = [(to, m) for to, m in ctx.glist('outbox') if isinstance(m, PDict)]
+    rv = [(to, m) for to, m in out if m.items.get('type') == 'request_vote']
+    started = t1 != t0
+    ctx.prove(Or(t1 == t0, t1 == t0 + 1), 'C03:R1.term-increments-by-one-at-most')
+    ctx.prove(Implies(readonly, And(t1 == t0, r1 == r0, Eq(vf1, vf0))), 'C18:O18.1.readonly-never-candidate')
+    ctx.prove(Implies(readonly, len(rv) == 0), 'C18:O18.1.readonly-sends-no-vote-request')
+    ctx.prove(Implies(r0 == LEADER, And(t1 == t0, r1 == r0, Eq(vf1, vf0))), 'C03:A4.leader-does-not-start-election')
+    if ctx.decide(started, 'election-started'):
+        ctx.prove(And(Eq(vf1, NodeId(so.U)), Or(r1 == CAND, r1 == LEADER)), 'C03:A4.candidate-state')
+        ctx.prove(Implies(r1 == CAND, so.get('votesCount') == 1), 'C03:A4.votes-reset-to-self-vote')
+        ctx.prove(Implies(r1 == LEADER, majority(1, nv)), 'C03:R3.leader-at-once-only-with-majority-of-one')
+        voters = old.get('otherNodes').bits
+        for i in range(so.U):
+            n_i = sum(1 for to, m in rv if to.idx == i)
+            ctx.prove(Implies(voters[i], n_i == 1) if n_i != 1 else True, 'C03:A4.request-sent-to-every-voter')
+            ctx.prove(Implies(Not(voters[i]), n_i == 0) if n_i != 0 else True, 'C03+C18:A4.request-only-to-voters')
+        for to, m in rv:
+            ctx.prove(And(Eq(m.items['term'], t1), Eq(m.items['last_log_index'], olog.last_idx()),
+                          Eq(m.items['last_log_term'], olog.term_at(olog.last_idx()))), 'C03:G.request_vote-carries-true-log-position')
+        # O2.6: every forwarded command waiting for the old leader's reply is told LEADER_CHANGED exactly once
+        slots = old.get('commandsWaitingReply').entries
+        cbs = ctx.glist('cb')
+        for j, (p, rid, cb) in enumerate(slots):
+            cnt = sum(1 for f, a in cbs if f.tag == cb.tag)
+            if ctx.decide(p, 'pending-reply-%d' % j) if is_sym(p) else p:
+                ctx.prove(cnt == 1, 'C02:O2.6.pending-forwarded-callback-fired-once')
+                for f, a in cbs:
+                    if f.tag == cb.tag:
+                        ctx.prove(And(a[0] is None, Eq(a[1], 5)), 'C02:O2.6.reason-is-LEADER_CHANGED')
+            else:
+                ctx.prove(cnt == 0, 'C02:O2.6.absent-callback-not-fired')
+        ctx.prove(I.truth_expr(so.get('commandsWaitingReply')) is False or Not(I.truth_expr(so.get('commandsWaitingReply'))),
+                  'C02:O2.6.map-emptied')
+    else:
+        ctx.prove(And(r1 == r0, Eq(vf1, vf0), so.get('votesCount') == old.get('votesCount')), 'C03:A4.no-election-no-change')
+        ctx.prove(len(rv) == 0, 'C03:A4.no-election-no-vote-request')
+    if ctx.decide(And(r1 == LEADER, r0 != LEADER), 'became-leader'):
+        log = so.log()
+        ctx.prove(And(log.n == olog.n + 1, log.termf(to_z3(olog.n)) == t1), 'C03:R4.noop-of-new-term-appended')
+    else:
+        ctx.prove(log_same(olog, so.log()), 'C03+C04:election.log-unchanged')
+    for n, b in field_unchanged(old, so, ['raftCommitIndex', 'raftLastApplied', 'otherNodes']):
+        ctx.prove(b, 'C03+C04:election.frame.%s' % n)
+    so.prove_inv('*:election')
+
+
+def _mut_election_drop_selfnode(fn):
+    cnt = 0
+    for n in ast.walk(fn):
+        if isinstance(n, ast.If) and isinstance(n.test, ast.BoolOp) and any(
+                isinstance(x, ast.Attribute) and x.attr == 'CANDIDATE' for x in ast.walk(n.test)) and len(n.test.values) == 2:
+            n.test = n.test.values[0]
+            cnt += 1
+    return cnt
+
+
+def _mut_votes_not_reset(fn):
+    cnt = 0
+    for n in ast.walk(fn):
+        body = getattr(n, 'body', None)
+        if isinstance(body, list):
+            for s in list(body):
+                if isinstance(s, ast.Assign) and isinstance(s.targets[0], ast.Attribute) and s.targets[0].attr == '__votedForNodeId' \
+                        and not (isinstance(s.value, ast.Constant) and s.value.value is None) and n.__class__.__name__ == 'If' \
+                        and any(isinstance(x, ast.Attribute) and x.attr == '__raftElectionDeadline' for x in ast.walk(n.test)):
+                    body.remove(s)
+                    cnt += 1
+    return cnt
